@@ -188,6 +188,18 @@ Example C18_arg_ok_examples :
   /\ arg_ok "a,b" = false /\ arg_ok "x AS y" = false /\ arg_ok "f(" = false /\ arg_ok "" = false.
 Proof. vm_compute. repeat split. Qed.
 
+(* a scalar sub-query is a well-formed part in every position once it is rendered as one parenthesised unit
+   (arguments, FILTER operands, PARTITION BY / ORDER BY terms, EXTRACT(.. FROM ..)); without the parentheses it is not
+   (level-0 FROM keyword / not a unit): the hypotheses of the round trip are exactly what the repaired code guarantees *)
+Example C18_subquery_parts :
+  let q := "(SELECT MAX(""qx"") FROM ""qw0"")" in
+  arg_ok q = true /\ part_ok q = true /\ ord_ok (q, Some Desc) = true /\ filter_ok (false, """b"">" ++ q) = true
+  /\ special_ok (Some ("FROM " ++ q)) = true
+  /\ arg_ok "SELECT MAX(""qx"") FROM ""qw0""" = false
+  /\ option_map wa_partition (match parse_call ("SUM(x) OVER(PARTITION BY " ++ q ++ ",y ORDER BY " ++ q ++ " DESC)") with
+                              | Some a => a_over a | None => None end) = Some [q; "y"].
+Proof. vm_compute. repeat split. Qed.
+
 Definition ex_fd : func_desc :=
   {| fd_name := "FIRST_VALUE"; fd_schema := Some """sc"""; fd_alias := Some "al"; fd_special := Some "IGNORE NULLS";
      fd_distinct := false; fd_filters := [(false, """fa""=1"); (true, """fb"">2 OR ""fc""=3"); (false, """fd""=4 AND ""fe""=5")]; fd_include_filter := true;
